@@ -10,6 +10,9 @@ namespace Rpyc.Srv
 /-- the alphabet of C16: everything clients can do, good or hostile; the administrator does not close the server -/
 def Op.c16 : Op → Bool
   | .serverClose => false
+  -- which descriptor number the kernel hands to a new connection is a fact of the environment; the step in which a
+  -- newcomer gets a reused number is treated on its own (`newcomer_on_reused_number`)
+  | .connectReuse _ _ => false
   | _ => true
 
 /-- the server is up: listener open, accept loop running -/
@@ -70,6 +73,38 @@ theorem Iso.joined {s : St} (h : Iso s) (k : Nat) (cred : Cred) : Iso (Srv.joine
       · subst hjk; rw [hk.2] at h2; cases h2
       · rw [hne i hik] at h1; rw [hne j hjk] at h2; exact ho i j o h1 h2
 
+theorem Iso.joinedReuse {s : St} (h : Iso s) (k j : Nat) (hkj : k ≠ j) : Iso (Srv.joinedReuse s k j) := by
+  obtain ⟨⟨b1, b2⟩, hi, ho⟩ := h
+  have hk : ((Srv.joinedReuse s k j).cli k).inst = none ∧ ((Srv.joinedReuse s k j).cli k).table = [] := by
+    simp [Srv.joinedReuse]
+  have hne : ∀ i, i ≠ k → ((Srv.joinedReuse s k j).cli i).inst = (s.cli i).inst ∧
+      ((Srv.joinedReuse s k j).cli i).table = (s.cli i).table := by
+    intro i hi'
+    by_cases hij : i = j
+    · subst hij; simp [Srv.joinedReuse, set_cli_ne _ _ _ _ hi']
+    · simp [Srv.joinedReuse, set_cli_ne _ _ _ _ hi', set_cli_ne _ _ _ _ hij]
+  refine ⟨⟨?_, ?_⟩, ?_, ?_⟩
+  · intro i a hi'
+    by_cases hik : i = k
+    · subst hik; rw [hk.1] at hi'; cases hi'
+    · rw [(hne i hik).1] at hi'; exact b1 i a hi'
+  · intro i o hi'
+    by_cases hik : i = k
+    · subst hik; rw [hk.2] at hi'; cases hi'
+    · rw [(hne i hik).2] at hi'; exact b2 i o hi'
+  · intro i i' a h1 h2
+    by_cases hik : i = k
+    · subst hik; rw [hk.1] at h1; cases h1
+    · by_cases hjk : i' = k
+      · subst hjk; rw [hk.1] at h2; cases h2
+      · rw [(hne i hik).1] at h1; rw [(hne i' hjk).1] at h2; exact hi i i' a h1 h2
+  · intro i i' o h1 h2
+    by_cases hik : i = k
+    · subst hik; rw [hk.2] at h1; cases h1
+    · by_cases hjk : i' = k
+      · subst hjk; rw [hk.2] at h2; cases h2
+      · rw [(hne i hik).2] at h1; rw [(hne i' hjk).2] at h2; exact ho i i' o h1 h2
+
 /-- **isolation is an invariant of every action**, the server's own close included -/
 theorem Iso.step {s t : St} {o : Obs} (h : Iso s) (op : Op) (hs : step s op = .ok (t, o)) : Iso t := by
   cases op with
@@ -87,11 +122,15 @@ theorem Iso.step {s t : St} {o : Obs} (h : Iso s) (op : Op) (hs : step s op = .o
     rcases step_connect hs with ⟨rfl, _, _⟩ | ⟨rfl, _, _, _, _⟩
     · exact h
     · exact (h.joined k cred).eff (acceptAll_eff _ _).toC
-  | call k r => exact h.eff (step_eff _ (by simp) (by simp) hs).toC
-  | raw k l => exact h.eff (step_eff _ (by simp) (by simp) hs).toC
-  | gracefulClose k => exact h.eff (step_eff _ (by simp) (by simp) hs).toC
-  | abruptClose k => exact h.eff (step_eff _ (by simp) (by simp) hs).toC
-  | creds k c => exact h.eff (step_eff _ (by simp) (by simp) hs).toC
+  | call k r => exact h.eff (step_eff _ (by simp) (by simp) (by simp) hs).toC
+  | raw k l => exact h.eff (step_eff _ (by simp) (by simp) (by simp) hs).toC
+  | gracefulClose k => exact h.eff (step_eff _ (by simp) (by simp) (by simp) hs).toC
+  | abruptClose k => exact h.eff (step_eff _ (by simp) (by simp) (by simp) hs).toC
+  | creds k c => exact h.eff (step_eff _ (by simp) (by simp) (by simp) hs).toC
+  | releaseHook k => exact h.eff (step_eff _ (by simp) (by simp) (by simp) hs).toC
+  | connectReuse k j =>
+    obtain ⟨rfl, _, _, hkj, _, _⟩ := step_connectReuse hs
+    exact (h.joinedReuse k j hkj).eff (acceptAll_eff _ _).toC
 
 theorem Iso.run {s : St} (h : Iso s) (ops : List Op) : Iso (Srv.run s ops) := by
   induction ops generalizing s with
@@ -242,20 +281,24 @@ theorem Accepting.step {s t : St} {o : Obs} (h : Accepting s) (hu : Unstallable 
           · rw [hb, f12 j hj] at h1; exact h.nobacklog j h1.symm
           · rw [hb] at h1; simp [Live] at h1
   | call k r =>
-    have e := step_eff _ (by simp) (by simp) hs
+    have e := step_eff _ (by simp) (by simp) (by simp) hs
     exact ⟨h.eff hu e, hu.eff e⟩
   | raw k l =>
-    have e := step_eff _ (by simp) (by simp) hs
+    have e := step_eff _ (by simp) (by simp) (by simp) hs
     exact ⟨h.eff hu e, hu.eff e⟩
   | gracefulClose k =>
-    have e := step_eff _ (by simp) (by simp) hs
+    have e := step_eff _ (by simp) (by simp) (by simp) hs
     exact ⟨h.eff hu e, hu.eff e⟩
   | abruptClose k =>
-    have e := step_eff _ (by simp) (by simp) hs
+    have e := step_eff _ (by simp) (by simp) (by simp) hs
     exact ⟨h.eff hu e, hu.eff e⟩
   | creds k c =>
-    have e := step_eff _ (by simp) (by simp) hs
+    have e := step_eff _ (by simp) (by simp) (by simp) hs
     exact ⟨h.eff hu e, hu.eff e⟩
+  | releaseHook k =>
+    have e := step_eff _ (by simp) (by simp) (by simp) hs
+    exact ⟨h.eff hu e, hu.eff e⟩
+  | connectReuse k j => simp [Op.c16] at hop
 
 
 /-! ### a well-behaved client is not affected -/
@@ -280,6 +323,27 @@ theorem QueueIdle.eff {s t : St} {T : Nat → Prop} (h : QueueIdle s) (e : Eff s
     · simp [hs] at h1
     · exact absurd ha (hT a h1)
 
+/-- what `step_eff` says about one client that is not the acting one -/
+theorem step_frame {s t : St} {o : Obs} (op : Op) (hop : op.c16 = true) (hnc : ∀ k c, op ≠ .connect k c)
+    (hs : step s op = .ok (t, o)) (g : Nat) (hg : op.client ≠ some g) (hb : (s.cli g).phase ≠ .backlog)
+    (hone : s.cfg.kind ≠ .oneshot) (hsp : s.cfg.spare = true ∨ ∀ k, op ≠ .releaseHook k) (hq : g ∉ s.queue) :
+    Same (s.cli g) (t.cli g) ∧ (s.cfg.kind ≠ .pool → t.cli g = s.cli g) := by
+  have hnx : ∀ k j, op ≠ .connectReuse k j := by
+    intro k j h; subst h; simp [Op.c16] at hop
+  have hns : op ≠ .serverClose := by intro h; subst h; simp [Op.c16] at hop
+  have e := step_eff op hns hnc hnx hs
+  have hT : ¬ (some g = op.client ∨ (s.cli g).phase = .backlog ∨ s.cfg.kind = .oneshot ∨
+      ((∃ k, op = .releaseHook k) ∧ s.cfg.spare = false)) := by
+    intro h
+    rcases h with h | h | h | ⟨⟨k, hk⟩, h⟩
+    · exact hg h.symm
+    · exact hb h
+    · exact hone h
+    · rcases hsp with h1 | h1
+      · rw [h1] at h; cases h
+      · exact h1 k hk
+  exact ⟨e.frame g hT hq, fun hp => e.exact hp g hT hq⟩
+
 /-- **containment** (threaded and forking servers): whatever a client does, the record of every *other* connected
 client stays exactly as it was -/
 theorem others_untouched {s t : St} {o : Obs} (hk : s.cfg.kind = .threaded ∨ s.cfg.kind = .forking) (hq : s.queue = [])
@@ -287,9 +351,8 @@ theorem others_untouched {s t : St} {o : Obs} (hk : s.cfg.kind = .threaded ∨ s
     (hs : step s op = .ok (t, o)) : t.cli g = s.cli g := by
   have hone : s.cfg.kind ≠ .oneshot := by rcases hk with h | h <;> simp [h]
   have hpool : s.cfg.kind ≠ .pool := by rcases hk with h | h <;> simp [h]
-  cases op with
-  | serverClose => simp [Op.c16] at hop
-  | connect k cred =>
+  by_cases hc : ∃ k c, op = .connect k c
+  · obtain ⟨k, cred, rfl⟩ := hc
     have hgk : g ≠ k := fun h => hg (by simp [Op.client, h])
     rcases step_connect hs with ⟨rfl, _, _⟩ | ⟨rfl, _, _, _, _⟩
     · rfl
@@ -299,50 +362,18 @@ theorem others_untouched {s t : St} {o : Obs} (hk : s.cfg.kind = .threaded ∨ s
         intro h; rcases h with h | h
         · rw [f12 g hgk] at h; exact hb h
         · rw [f1] at h; exact hone h) (by rw [f8, hq]; simp), f12 g hgk]
-  | call k r =>
-    have e := step_eff _ (by simp) (by simp) hs
-    exact e.exact hpool g (by
-      intro h; rcases h with h | h | h
-      · exact hg (by simpa [Op.client] using h.symm)
-      · exact hb h
-      · exact hone h) (by rw [hq]; simp)
-  | raw k l =>
-    have e := step_eff _ (by simp) (by simp) hs
-    exact e.exact hpool g (by
-      intro h; rcases h with h | h | h
-      · exact hg (by simpa [Op.client] using h.symm)
-      · exact hb h
-      · exact hone h) (by rw [hq]; simp)
-  | gracefulClose k =>
-    have e := step_eff _ (by simp) (by simp) hs
-    exact e.exact hpool g (by
-      intro h; rcases h with h | h | h
-      · exact hg (by simpa [Op.client] using h.symm)
-      · exact hb h
-      · exact hone h) (by rw [hq]; simp)
-  | abruptClose k =>
-    have e := step_eff _ (by simp) (by simp) hs
-    exact e.exact hpool g (by
-      intro h; rcases h with h | h | h
-      · exact hg (by simpa [Op.client] using h.symm)
-      · exact hb h
-      · exact hone h) (by rw [hq]; simp)
-  | creds k c =>
-    have e := step_eff _ (by simp) (by simp) hs
-    exact e.exact hpool g (by
-      intro h; rcases h with h | h | h
-      · exact hg (by simpa [Op.client] using h.symm)
-      · exact hb h
-      · exact hone h) (by rw [hq]; simp)
+  · refine (step_frame op hop (fun k c h => hc ⟨k, c, h⟩) hs g hg hb hone (Or.inr ?_) (by rw [hq]; simp)).2 hpool
+    intro k h; subst h
+    simp [step, hpool] at hs
 
-/-- the same for the pool, up to membership of `Server.clients`, for a client that is not waiting in the queue -/
-theorem others_untouched_pool {s t : St} {o : Obs} (hk : s.cfg.kind = .pool)
+/-- the same for the pool - whose end-of-stream path removes only the connection it was serving
+(`cfg.spare`, the repaired code) -, up to membership of `Server.clients`, for a client that is not waiting in the queue -/
+theorem others_untouched_pool {s t : St} {o : Obs} (hk : s.cfg.kind = .pool) (hspare : s.cfg.spare = true)
     (op : Op) (hop : op.c16 = true) (g : Nat) (hg : op.client ≠ some g) (hb : (s.cli g).phase ≠ .backlog)
     (hq : g ∉ s.queue) (hs : step s op = .ok (t, o)) : Same (s.cli g) (t.cli g) := by
   have hone : s.cfg.kind ≠ .oneshot := by simp [hk]
-  cases op with
-  | serverClose => simp [Op.c16] at hop
-  | connect k cred =>
+  by_cases hc : ∃ k c, op = .connect k c
+  · obtain ⟨k, cred, rfl⟩ := hc
     have hgk : g ≠ k := fun h => hg (by simp [Op.client, h])
     rcases step_connect hs with ⟨rfl, _, _⟩ | ⟨rfl, _, _, _, _⟩
     · exact Same.refl _
@@ -353,37 +384,22 @@ theorem others_untouched_pool {s t : St} {o : Obs} (hk : s.cfg.kind = .pool)
         · rw [f12 g hgk] at h; exact hb h
         · rw [f1] at h; exact hone h) (by rw [f8]; exact hq)
       rw [f12 g hgk] at this; exact this
-  | call k r =>
-    exact (step_eff _ (by simp) (by simp) hs).frame g (by
-      intro h; rcases h with h | h | h
-      · exact hg (by simpa [Op.client] using h.symm)
-      · exact hb h
-      · exact hone h) hq
-  | raw k l =>
-    exact (step_eff _ (by simp) (by simp) hs).frame g (by
-      intro h; rcases h with h | h | h
-      · exact hg (by simpa [Op.client] using h.symm)
-      · exact hb h
-      · exact hone h) hq
-  | gracefulClose k =>
-    exact (step_eff _ (by simp) (by simp) hs).frame g (by
-      intro h; rcases h with h | h | h
-      · exact hg (by simpa [Op.client] using h.symm)
-      · exact hb h
-      · exact hone h) hq
-  | abruptClose k =>
-    exact (step_eff _ (by simp) (by simp) hs).frame g (by
-      intro h; rcases h with h | h | h
-      · exact hg (by simpa [Op.client] using h.symm)
-      · exact hb h
-      · exact hone h) hq
-  | creds k c =>
-    exact (step_eff _ (by simp) (by simp) hs).frame g (by
-      intro h; rcases h with h | h | h
-      · exact hg (by simpa [Op.client] using h.symm)
-      · exact hb h
-      · exact hone h) hq
+  · exact (step_frame op hop (fun k c h => hc ⟨k, c, h⟩) hs g hg hb hone (Or.inl hspare) hq).1
 
+/-- a newcomer whose socket is given the descriptor number of a closed connection (`Op.connectReuse k j`): nobody but
+the newcomer and the previous holder of that number `j` (whose stale table entry is replaced) is touched -/
+theorem newcomer_on_reused_number {s t : St} {o : Obs} (k j g : Nat) (hs : step s (.connectReuse k j) = .ok (t, o))
+    (hgk : g ≠ k) (hgj : g ≠ j) (hb : (s.cli g).phase ≠ .backlog) (hone : s.cfg.kind ≠ .oneshot) (hq : g ∉ s.queue) :
+    Same (s.cli g) (t.cli g) := by
+  obtain ⟨rfl, _, _, hkj, _, _⟩ := step_connectReuse hs
+  have hJ : (joinedReuse s k j).cli g = s.cli g := by
+    simp [joinedReuse, set_cli_ne _ _ _ _ hgk, set_cli_ne _ _ _ _ hgj]
+  have e := acceptAll_eff (s.ids ++ [k]) (joinedReuse s k j)
+  have := e.frame g (by
+    intro h; rcases h with h | h
+    · rw [hJ] at h; exact hb h
+    · exact hone h) (by simpa [joinedReuse] using hq)
+  rw [hJ] at this; exact this
 
 /-! ### the pool's queue -/
 
@@ -460,6 +476,10 @@ theorem step_queue {s t : St} {o : Obs} (op : Op) (hk : s.cfg.kind ≠ .pool) (h
     simp only [step] at h; split at h
     · cases h
     · simp only [Except.ok.injEq, Prod.mk.injEq] at h; rw [← h.1, supply_queue _ _ _ hk]
+  | connectReuse k j =>
+    obtain ⟨rfl, _, _, _, _, _⟩ := step_connectReuse h
+    rw [acceptAll_queue _ _ (by simpa [joinedReuse] using hk)]; rfl
+  | releaseHook k => simp [step, hk] at h
 
 /-- pool: a descriptor waits in the queue only while every worker is blocked -/
 def QInv (s : St) : Prop := s.queue ≠ [] → freeWorkers s = 0
@@ -484,8 +504,10 @@ theorem poolWake_QInv (s : St) (k : Nat) (h : QInv s) : QInv (poolWake s k) := b
   · exact h
   · exact drain_QInv _ _
 
-theorem poolUnblock_QInv (s : St) (k : Nat) : QInv (poolUnblock s k) := by
-  unfold poolUnblock; exact drain_QInv _ _
+theorem poolUnblock_QInv (s : St) (k : Nat) (h : QInv s) : QInv (poolUnblock s k) := by
+  unfold poolUnblock; split
+  · exact h.congr rfl rfl rfl
+  · exact drain_QInv _ _
 
 theorem poolBuild_QInv (s : St) (k : Nat) (h : QInv s) : QInv (poolBuild s k) := by
   unfold poolBuild
@@ -523,7 +545,7 @@ theorem wake_QInv (s : St) (k : Nat) (hk : s.cfg.kind = .pool) (h : QInv s) : QI
   split
   · simp only [hk, if_true]; exact poolWake_QInv s k h
   · split
-    · exact poolUnblock_QInv s k
+    · exact poolUnblock_QInv s k h
     · exact h
   · split
     · unfold poolAuthGone
@@ -580,6 +602,12 @@ theorem QInv.step {s t : St} {o : Obs} (h : QInv s) (hk : s.cfg.kind = .pool) (o
           · unfold poolAuthGone
             exact acceptAll_QInv _ _ (by simpa using hk) (h.congr rfl rfl rfl)
         · exact h.congr rfl rfl rfl
+  | connectReuse k j => simp [Op.c16] at hop
+  | releaseHook k =>
+    simp only [Srv.step] at hs; split at hs
+    · cases hs
+    · simp only [Except.ok.injEq, Prod.mk.injEq] at hs; rw [← hs.1]
+      unfold poolRelease; exact drain_QInv _ _
 
 /-! ### a ready client is answered -/
 
@@ -589,6 +617,7 @@ def expected (c : Cli) (nextObj : Nat) : ReqKind → Reply
   | .lend => .ref nextObj
   | .probe oid => if c.table.contains oid then .resolved else .keyError
   | .drop _ => .done
+  | .arm => .done
 
 theorem Ready.usable {s : St} {g : Nat} (h : Ready (s.cli g)) : usable s g = true := by
   obtain ⟨h1, _, _, h4, h5, h6, _⟩ := h
@@ -762,11 +791,13 @@ theorem Up.step {s t : St} {o : Obs} (h : Up s) (hk : s.cfg.kind ≠ .oneshot) (
       have hup : Up (joined s k cred) :=
         ⟨by rw [f2]; exact u1, by rw [f3]; exact u2, by rw [f4]; exact u3, by rw [f5]; exact u4, by rw [f6, f1]; exact u5⟩
       exact hup.eff (by rw [f1]; exact hk) (acceptAll_eff _ _)
-  | call k r => exact h.eff hk (step_eff _ (by simp) (by simp) hs)
-  | raw k l => exact h.eff hk (step_eff _ (by simp) (by simp) hs)
-  | gracefulClose k => exact h.eff hk (step_eff _ (by simp) (by simp) hs)
-  | abruptClose k => exact h.eff hk (step_eff _ (by simp) (by simp) hs)
-  | creds k c => exact h.eff hk (step_eff _ (by simp) (by simp) hs)
+  | call k r => exact h.eff hk (step_eff _ (by simp) (by simp) (by simp) hs)
+  | raw k l => exact h.eff hk (step_eff _ (by simp) (by simp) (by simp) hs)
+  | gracefulClose k => exact h.eff hk (step_eff _ (by simp) (by simp) (by simp) hs)
+  | abruptClose k => exact h.eff hk (step_eff _ (by simp) (by simp) (by simp) hs)
+  | creds k c => exact h.eff hk (step_eff _ (by simp) (by simp) (by simp) hs)
+  | releaseHook k => exact h.eff hk (step_eff _ (by simp) (by simp) (by simp) hs)
+  | connectReuse k j => simp [Op.c16] at hop
 
 /-- a worker is free in every state the run passes through -/
 def FreeWorkerAlong (s : St) : List Op → Prop
@@ -777,7 +808,8 @@ def FreeWorkerAlong (s : St) : List Op → Prop
     | .ok (t, _) => FreeWorkerAlong t ops
     | .error _ => FreeWorkerAlong s ops
 
-theorem unaffected_run_pool {s : St} (g : Nat) (hk : s.cfg.kind = .pool) (hup : Up s) (hq : QInv s)
+theorem unaffected_run_pool {s : St} (g : Nat) (hk : s.cfg.kind = .pool) (hspare : s.cfg.spare = true) (hup : Up s)
+    (hq : QInv s)
     (h : Ready (s.cli g)) (ops : List Op) (hfree : FreeWorkerAlong s ops) (hops : OthersAndPings g ops) :
     pongs g ops (runObs s ops) := by
   induction ops generalizing s with
@@ -797,7 +829,7 @@ theorem unaffected_run_pool {s : St} (g : Nat) (hk : s.cfg.kind = .pool) (hup : 
     cases hs : Srv.step s op with
     | error e =>
       rw [hs] at hfree'
-      refine ⟨?_, ih hk hup hq h hfree' hrest⟩
+      refine ⟨?_, ih hk hspare hup hq h hfree' hrest⟩
       intro hcall; subst hcall
       obtain ⟨t, ht, _⟩ := call_answered_pool g .ping hk hpu hq hfw h
       rw [ht] at hs; cases hs
@@ -813,9 +845,9 @@ theorem unaffected_run_pool {s : St} (g : Nat) (hk : s.cfg.kind = .pool) (hup : 
         rw [ht] at hs
         simp only [Except.ok.injEq, Prod.mk.injEq] at hs
         obtain ⟨rfl, rfl⟩ := hs
-        exact ⟨fun _ => by simp [expected], ih hk' hup' hq' hr hfree' hrest⟩
-      · have hsame := others_untouched_pool hk op hop.1 g hc (by rw [h.1]; simp) (by rw [hqe]; simp) hs
-        refine ⟨?_, ih hk' hup' hq' (h.same hsame) hfree' hrest⟩
+        exact ⟨fun _ => by simp [expected], ih hk' (by rw [step_cfg _ ht]; exact hspare) hup' hq' hr hfree' hrest⟩
+      · have hsame := others_untouched_pool hk hspare op hop.1 g hc (by rw [h.1]; simp) (by rw [hqe]; simp) hs
+        refine ⟨?_, ih hk' (by rw [step_cfg op hs]; exact hspare) hup' hq' (h.same hsame) hfree' hrest⟩
         intro hcall; subst hcall; simp [Op.client] at hc
 
 theorem QInv.init (cfg : Cfg) : QInv (init cfg) := by intro h; simp [Srv.init] at h
